@@ -844,7 +844,15 @@ func (c *Ctx) tailData(dv *deepView, fn *ssa.Function, parts []listItem, arms []
 			pc, isCall = ex.Tuple.(*ssa.Call)
 		}
 		if !ok || !isCall || ir.CallID(pc) != acPkg+".PaddingBytes" || ex.Index != 0 {
-			bad = append(bad, "the padding does not come from PaddingBytes")
+			// judged by value: for every residue of the padded quantity modulo 8 the number of
+			// bytes written is the distance to the next multiple of 8
+			if sym := remOperand(pv.v, 0); sym == nil {
+				c.R.Infof("J3.tail", fname, "trailing-data-pad", c.IPos(padWrite), "not decided for this shape: the padding does not come from PaddingBytes and no remainder modulo 8 is found in what computes its length")
+			} else if vals, okV := c.lenFunction(pv.v, func(v ssa.Value) bool { return v == sym }); !okV {
+				c.R.Infof("J3.tail", fname, "trailing-data-pad", c.IPos(padWrite), "not decided for this shape: the number of padding bytes is not evaluated")
+			} else if vals != [8]int64{0, 7, 6, 5, 4, 3, 2, 1} {
+				bad = append(bad, fmt.Sprintf("the padding numbers %v bytes for sizes = 0..7 (mod 8), want the distance to the next multiple of 8", vals))
+			}
 		} else if k, isK := ir.ConstInt(dv.resolve(pc.Call.Args[1], pv.fr).v); !isK || k != 8 {
 			bad = append(bad, "the padding block size is not 8")
 		}
@@ -1443,4 +1451,54 @@ func (c *Ctx) rulePadLength(rule string) {
 		return
 	}
 	c.R.Okf(rule, name(fn), "pad-length", c.IPos(pad), "the length the padding is computed from is not just the length of one part of the file")
+}
+
+// remOperand: the quantity whose remainder modulo 8 enters the computation of v
+// (the length of a pad slice, a pad length): searched backwards through
+// allocations, arithmetic and conversions.
+func remOperand(v ssa.Value, depth int) ssa.Value {
+	if depth > 10 || v == nil {
+		return nil
+	}
+	switch x := v.(type) {
+	case *ssa.BinOp:
+		if x.Op == token.REM {
+			if k, ok := ir.ConstInt(x.Y); ok && k == 8 {
+				if inner := remOperand(x.X, depth+1); inner != nil {
+					return inner
+				}
+				return x.X
+			}
+		}
+		if x.Op == token.AND {
+			if k, ok := ir.ConstInt(x.Y); ok && k == 7 {
+				if inner := remOperand(x.X, depth+1); inner != nil {
+					return inner
+				}
+				return x.X
+			}
+		}
+		if r := remOperand(x.X, depth+1); r != nil {
+			return r
+		}
+		return remOperand(x.Y, depth+1)
+	case *ssa.UnOp:
+		if x.Op == token.SUB || x.Op == token.XOR {
+			return remOperand(x.X, depth+1)
+		}
+	case *ssa.Convert:
+		return remOperand(x.X, depth+1)
+	case *ssa.ChangeType:
+		return remOperand(x.X, depth+1)
+	case *ssa.MakeSlice:
+		return remOperand(x.Len, depth+1)
+	case *ssa.Slice:
+		if x.High != nil {
+			if r := remOperand(x.High, depth+1); r != nil {
+				return r
+			}
+		}
+		return remOperand(x.X, depth+1)
+	}
+	return nil
 }
